@@ -987,7 +987,7 @@ fn process_shard(args: &Args, cases: Vec<Case>, layouts: &[Layout], shard: usize
                 let (lo, hi) = layout.ranges[*i];
                 let contiguous = if *i == 0 { lo == 0 } else { layout.ranges[*i - 1].1.wrapping_add(1) == lo };
                 if !contiguous || lo > hi {
-                    rep.oracle_failure("histogram:layout", &enc, &ans, "bucket ranges are not contiguous / ordered");
+                    fail(&mut rep, "histogram:layout", &enc, &ans, "bucket ranges are not contiguous / ordered");
                 }
                 requests.push(format!("bounds {gp} {mvp} {i}"));
                 pending.push(Pending { case: enc, component: "histogram/bucket-layout", impl_out: ans, hcase: None });
@@ -1031,7 +1031,7 @@ fn process_shard(args: &Args, cases: Vec<Case>, layouts: &[Layout], shard: usize
                             });
                             let cc = HCase { srcs, ..c.clone() };
                             let (k, w, out) = oracle_fails(&cc).unwrap_or((key, what, format!("{} | {}", o.closed, o.reagg)));
-                            rep.oracle_failure(&k, &cc.encode(), &out, &w);
+                            fail(&mut rep, &k, &cc.encode(), &out, &w);
                         }
                         requests.push(c.request());
                         pending.push(Pending {
@@ -1044,14 +1044,14 @@ fn process_shard(args: &Args, cases: Vec<Case>, layouts: &[Layout], shard: usize
                     Err(p) => {
                         rep.case(&enc, false);
                         rep.bump("result:panic");
-                        rep.oracle_failure("histogram:panic", &enc, &format!("panic:{p}"), "recording / closing panicked");
+                        fail(&mut rep, "histogram:panic", &enc, &format!("panic:{p}"), "recording / closing panicked");
                     }
                 }
             }
             Case::T(seed, threads, ops) => {
                 let enc = format!("T {seed} {threads} {ops}");
                 let Ok(t) = catch(|| run_trace(*seed, *threads, *ops, &layouts[0])) else {
-                    rep.oracle_failure("histogram:concurrent:panic", &enc, "panic", "concurrent run panicked");
+                    fail(&mut rep, "histogram:concurrent:panic", &enc, "panic", "concurrent run panicked");
                     continue;
                 };
                 rep.case(&enc, t.drains >= 2);
@@ -1061,11 +1061,11 @@ fn process_shard(args: &Args, cases: Vec<Case>, layouts: &[Layout], shard: usize
                 rep.traces_validated += 1;
                 let summary = format!("recorded={} drained={} drains={}", t.recorded, t.drained, t.drains);
                 if t.recorded != t.drained {
-                    rep.oracle_failure("histogram:concurrent:count", &enc, &summary, "occurrences over all drains differ from the number recorded");
+                    fail(&mut rep, "histogram:concurrent:count", &enc, &summary, "occurrences over all drains differ from the number recorded");
                 } else if t.merged != t.sequential {
-                    rep.oracle_failure("histogram:concurrent:values", &enc, &summary, "per reported value, drains do not add up to the sequential non-atomic result");
+                    fail(&mut rep, "histogram:concurrent:values", &enc, &summary, "per reported value, drains do not add up to the sequential non-atomic result");
                 } else if t.shared_closed != t.sequential_closed {
-                    rep.oracle_failure(
+                    fail(&mut rep, 
                         "histogram:concurrent:shared",
                         &enc,
                         &t.shared_closed,
@@ -1083,7 +1083,25 @@ fn process_shard(args: &Args, cases: Vec<Case>, layouts: &[Layout], shard: usize
             let mut searched = false;
             for (p, reply) in pending.iter().zip(replies.iter()) {
                 if &p.impl_out != reply {
-                    rep.disagreement(p.component, &p.case, &p.impl_out, reply);
+                    // the first disagreement of a batch is shrunk (model and implementation re-run per candidate)
+                    let mut shrunk = None;
+                    if let (Some(c), true) = (&p.hcase, rep.disagreements.is_empty()) {
+                        let differs = |cc: &HCase| -> Option<(String, String)> {
+                            let o = run_impl(cc).ok()?;
+                            let i = format!("{} | {}", o.closed, o.reagg);
+                            let m = run_driver(&args.driver, "histogram", &[cc.request()])?.pop()?;
+                            if i != m { Some((i, m)) } else { None }
+                        };
+                        let srcs = shrink_list(&c.srcs, |s| differs(&HCase { srcs: s.to_vec(), ..c.clone() }).is_some());
+                        let cc = HCase { srcs, ..c.clone() };
+                        if let Some((i, m)) = differs(&cc) {
+                            shrunk = Some((cc.encode(), i, m));
+                        }
+                    }
+                    match shrunk {
+                        Some((case, i, m)) => rep.disagreement(p.component, &case, &i, &m),
+                        None => rep.disagreement(p.component, &p.case, &p.impl_out, reply),
+                    }
                     // targeted search around a disagreeing case, oracle only
                     if let (Some(c), false, true) = (&p.hcase, searched, rep.oracle_failures.is_empty()) {
                         searched = true;
@@ -1099,7 +1117,7 @@ fn process_shard(args: &Args, cases: Vec<Case>, layouts: &[Layout], shard: usize
                                 });
                                 let c2 = HCase { srcs, ..cc.clone() };
                                 let (k2, w2, o2) = oracle_fails(&c2).unwrap_or((key, what, out));
-                                rep.oracle_failure(&k2, &c2.encode(), &o2, &w2);
+                                fail(&mut rep, &k2, &c2.encode(), &o2, &w2);
                                 rep.search_found = true;
                                 break;
                             }
@@ -1158,6 +1176,40 @@ const RULE: &str = "case = one histogram life cycle (sources recorded, closed, r
     crate layout | one concurrent run; non-trivial = the closed histogram reports at least two values (H), every bucket \
     probe (B), a concurrent run in which at least one drain overlapped recording (T); distinct by case text";
 
+/// at most three witnesses per defect class, so that a frequent (possibly known) class cannot crowd
+/// the others out of the report's bounded list
+fn fail(rep: &mut Report, key: &str, case: &str, impl_out: &str, what: &str) {
+    if rep.oracle_failures.iter().filter(|f| f.key == key).count() < 3 {
+        rep.oracle_failure(key, case, impl_out, what);
+    }
+}
+
+fn merge(rep: &mut Report, r: Report) {
+    rep.evaluations += r.evaluations;
+    rep.nontrivial.extend(r.nontrivial);
+    for s in r.samples {
+        rep.sample(s);
+    }
+    for (k, v) in r.distribution {
+        rep.bump_by(&k, v);
+    }
+    for f in r.oracle_failures {
+        fail(rep, &f.key, &f.case, &f.impl_out, &f.what);
+    }
+    for d in r.disagreements {
+        rep.disagreement(&d.component, &d.case, &d.impl_out, &d.model_out);
+    }
+    rep.traces_validated += r.traces_validated;
+    rep.driver_available &= r.driver_available;
+    rep.search_cases += r.search_cases;
+    rep.search_found |= r.search_found;
+    for n in r.notes {
+        if rep.notes.len() < 6 {
+            rep.notes.push(n);
+        }
+    }
+}
+
 fn main() {
     quiet_panics();
     let args = Args::parse();
@@ -1188,23 +1240,25 @@ fn main() {
         for i in 0..layouts[0].ranges.len() {
             cases.extend(boundary_cases(&layouts[0], i, &mut rng).into_iter().map(Case::H));
         }
-        // (3) random life cycles, (4) the nasty stream
-        let (n_rand, n_nasty) = if thorough { (400_000, 100_000) } else { (6_000, 2_000) };
-        for _ in 0..n_rand {
-            cases.push(Case::H(gen_hcase(&mut rng, &layouts[0], false)));
-        }
-        for _ in 0..n_nasty {
-            cases.push(Case::H(gen_hcase(&mut rng, &layouts[0], true)));
-        }
+        // (3) random life cycles and (4) the nasty stream are generated inside the shards, see below
         // (5) concurrent runs
-        let (n_conc, ops) = if thorough { (200, 3000) } else { (12, 1500) };
+        let (n_conc, ops) = if thorough { (300, 4000) } else { (24, 2000) };
         for _ in 0..n_conc {
             cases.push(Case::T(rng.next_u64() >> 1, 8, ops));
         }
     }
 
-    // shards (threads); each has its own driver process
-    let shards = if thorough { 12 } else { 4 }.min(cases.len().max(1));
+    // shards (threads); each has its own PRNG stream and its own driver processes, and generates its
+    // share of the random cases in batches (bounded memory)
+    let replaying = args.replay_case().is_some();
+    let (n_rand, n_nasty): (usize, usize) = if replaying {
+        (0, 0)
+    } else if thorough {
+        (1_200_000, 300_000)
+    } else {
+        (48_000, 12_000)
+    };
+    let shards = if thorough { 12 } else { 4 };
     let mut buckets: Vec<Vec<Case>> = (0..shards).map(|_| vec![]).collect();
     // concurrent runs are kept in the first shard so that they do not compete with each other
     for (i, c) in cases.into_iter().enumerate() {
@@ -1221,36 +1275,25 @@ fn main() {
             .map(|(k, b)| {
                 let a = args.clone();
                 let l = layouts.clone();
-                s.spawn(move || process_shard(&a, b, &l, k))
+                let mut r = rng.fork(k as u64);
+                s.spawn(move || {
+                    let mut rep = process_shard(&a, b, &l, k);
+                    let mut todo: Vec<bool> = vec![];
+                    todo.extend(std::iter::repeat_n(false, n_rand / shards));
+                    todo.extend(std::iter::repeat_n(true, n_nasty / shards));
+                    for chunk in todo.chunks(20_000) {
+                        let batch: Vec<Case> = chunk.iter().map(|nasty| Case::H(gen_hcase(&mut r, &l[0], *nasty))).collect();
+                        merge(&mut rep, process_shard(&a, batch, &l, k));
+                    }
+                    rep
+                })
             })
             .collect();
         hs.into_iter().map(|h| h.join().expect("shard")).collect()
     });
     let mut rep = Report::new(&args, "histogram", RULE);
     for r in reports {
-        rep.evaluations += r.evaluations;
-        rep.nontrivial.extend(r.nontrivial);
-        for s in r.samples {
-            rep.sample(s);
-        }
-        for (k, v) in r.distribution {
-            rep.bump_by(&k, v);
-        }
-        for f in r.oracle_failures {
-            rep.oracle_failure(&f.key, &f.case, &f.impl_out, &f.what);
-        }
-        for d in r.disagreements {
-            rep.disagreement(&d.component, &d.case, &d.impl_out, &d.model_out);
-        }
-        rep.traces_validated += r.traces_validated;
-        rep.driver_available &= r.driver_available;
-        rep.search_cases += r.search_cases;
-        rep.search_found |= r.search_found;
-        for n in r.notes {
-            if rep.notes.len() < 6 {
-                rep.notes.push(n);
-            }
-        }
+        merge(&mut rep, r);
     }
     if cfg.is_none() {
         rep.driver_available = false;
